@@ -88,3 +88,31 @@ def referred_root(o_attr):
 ''', sorts={'referred_root': ([INST], INST, [])})
 M.contract('bridgepoint.gen_xsd_schema.get_refered_attribute', [('o_attr', INST)], returns=INST,
            ensures={'end-of-the-reference-chain': 'result is referred_root(o_attr)'}, modifies=[])
+
+# ---- build_type: one subtype of S_DT decides which builder runs — core before enumeration before user-defined; anything else
+#      (structured types, instance references) yields no type element
+M.fields({'Element.enum_of': INST})
+M.contract('bridgepoint.gen_xsd_schema.build_enum_type', [('s_edt', INST)], returns=EL, trusted=True,
+           reason='abstract here: the element built for an enumeration is recorded with the S_EDT it was built from (ghost enum_of); '
+                  'its enumerator walk along R56 is decided by the bounded tier (c20 item type-layers)',
+           requires={'enumeration': 's_edt is not None'},
+           ensures={'a-new-simple-type-for-that-enumeration': 'result is not None and fresh(result) and result.tag == "xs:simpleType" and result.enum_of is s_edt'},
+           modifies=['Element.tag', 'Element.attrs', 'Element.children', 'fresh:Element.enum_of'], ghost={'allocates': True})
+M.contract('bridgepoint.gen_xsd_schema.build_type', [('s_dt', INST)], returns=EL,
+           lets={'cdt': 'first_of(s_dt, "S_CDT[R17]")', 'edt': 'first_of(s_dt, "S_EDT[R17]")', 'udt': 'first_of(s_dt, "S_UDT[R17]")'},
+           requires={'data-type': 's_dt is not None',
+                     'subtypes-complete': 'implies(cdt is not None, first_of(cdt, "S_DT[R17]") is not None and is_str(attr_value(first_of(cdt, "S_DT[R17]"), "NAME"))) and '
+                                          'implies(udt is not None, first_of(udt, "S_DT[R17]") is not None and first_of(udt, "S_DT[R18]") is not None '
+                                          'and is_str(attr_value(first_of(udt, "S_DT[R17]"), "NAME")))'},
+           ensures={'a-core-type-is-built-as-core-type':
+                    'implies(cdt is not None, (result is None) == (xs_of(as_str(attr_value(first_of(cdt, "S_DT[R17]"), "NAME"))) == "") and '
+                    'implies(result is not None, fresh(result) and result.tag == "xs:simpleType" and len(result.children) == 1 and "base" in result.children[0].attrs '
+                    'and result.children[0].attrs["base"] == xs_of(as_str(attr_value(first_of(cdt, "S_DT[R17]"), "NAME")))))',
+                    'an-enumeration-is-built-as-enumeration': 'implies(cdt is None and edt is not None, result is not None and fresh(result) and result.enum_of is edt)',
+                    'a-user-type-is-built-as-restriction-of-its-base':
+                    'implies(cdt is None and edt is None and udt is not None and xsd_named(first_of(udt, "S_DT[R18]")) and bool(attr_value(first_of(udt, "S_DT[R18]"), "NAME")), '
+                    'result is not None and fresh(result) and "name" in result.attrs and same(result.attrs["name"], attr_value(first_of(udt, "S_DT[R17]"), "NAME")) '
+                    'and len(result.children) == 1 and "base" in result.children[0].attrs '
+                    'and same(result.children[0].attrs["base"], attr_value(first_of(udt, "S_DT[R18]"), "NAME")))',
+                    'any-other-data-type-yields-nothing': 'implies(cdt is None and edt is None and udt is None, result is None)'},
+           modifies=['Element.tag', 'Element.attrs', 'Element.children', 'fresh:Element.enum_of'])
